@@ -578,6 +578,30 @@ async fn deadline_case(addr: SocketAddr, conf: &Conf, behaviour: &str, out: &Mut
             }
             return;
         }
+        "protocol-error-then-trickle" => {
+            // the client breaks the protocol (a frame of length zero after its handshake) and then keeps a trickle
+            // of bytes coming, one every 20 ms: whatever the server does once a connection has failed - a notice, a
+            // graceful close - the connection is gone by the deadline
+            let _ = c.send(&codec::sb_handshake(769, "t.example", 25565, 2)).await;
+            let _ = c.send_raw(&[0x00]).await;
+            let limit = (timeout + ALLOWANCE).saturating_sub(t0.elapsed());
+            let trickle = async {
+                loop {
+                    if c.stream.write_all(&[0x41]).await.is_err() {
+                        break;
+                    }
+                    tokio::time::sleep(Duration::from_millis(20)).await;
+                }
+            };
+            if tokio::time::timeout(limit, trickle).await.is_err() {
+                out.lock().unwrap().push((
+                    format!("deadline-not-enforced:{behaviour}"),
+                    format!("timeout = {} s: a client that broke the protocol and then kept sending a byte every 20 ms could still write {:?} after it connected", conf.timeout, t0.elapsed()),
+                    json!({"conf": conf, "case": "deadline", "behaviour": behaviour}),
+                ));
+            }
+            return;
+        }
         other => common::machinery(&format!("behaviour {other}")),
     }
     // from here on the client only listens (and echoes keep-alives if it is in the configuration phase)
@@ -680,7 +704,7 @@ async fn futures_join_all<F: std::future::Future<Output = ()>>(futs: Vec<F>) {
 pub fn run(cli: Cli) -> ! {
     let rep = Report::new("C14", cli.tier, "exploration");
     let thorough = cli.tier.thorough();
-    let all_behaviours = ["silent", "one-byte-every-100ms", "stop-mid-frame", "stop-after-handshake", "stop-after-login-start", "stop-after-encryption-request", "stop-after-login-success", "login-ack-only", "floods-ignorable-frames"];
+    let all_behaviours = ["silent", "one-byte-every-100ms", "stop-mid-frame", "stop-after-handshake", "stop-after-login-start", "stop-after-encryption-request", "stop-after-login-success", "login-ack-only", "floods-ignorable-frames", "protocol-error-then-trickle"];
     let confs: Vec<Conf> = if let Some(case) = &cli.replay {
         vec![serde_json::from_value(case["conf"].clone()).unwrap_or_else(|e| common::machinery(&format!("bad replay: {e}")))]
     } else if thorough {
